@@ -4,7 +4,7 @@ SPEC = dict(
     harness=['h_poly.c', 'h_poly_ext.c'],
     level='exploration',
     rule='boundary data sets are drawn at random: main regime = every boundary value non-zero, sign random, magnitude log-uniform in '
-         '[1e-3,1e3), duration ts log-uniform in [1e-4,1e4) or an exact power of two 2^-13..2^13 (1 set in 16 is "sparse": zeros and '
+         '[1e-3,1e3), duration ts log-uniform in [1e-4,1e4), an exact power of two 2^-13..2^13, or (one draw in five) log-uniform in [1e-38,1e38) (1 set in 16 is "sparse": zeros and '
          'integers mixed in); exact regime = integer data (jerks multiples of 3) with ts in {1, 2, 1/2}. Each set is one evaluation: '
          'a_trajpolyN_gen, then every accessor and every output function at 0, ts and 3 query times is judged (exact at time 0, '
          'C*eps*S residual bound at ts with C=2^8/2^13/2^19, 4 ulp for accessors, a-priori Horner bound against __float128 for outputs, '
